@@ -72,6 +72,8 @@ def _step_line(s):
         toks += list(s["vals"])
     elif op == "apply":
         toks = ["apply", s["dut"]]
+    elif op == "setf":
+        toks = ["setf", s["valid"]]
     elif op == "compare":
         toks = ["compare", s["rel"]]
     else:
